@@ -99,7 +99,7 @@ theorem emergency_delta (cfg : Cfg) (s : State) : Delta s (emergency cfg s) := b
   · exact Delta.rfl' s
   · intro it
     have h1 := count_take_drop s.queue (s.queue.length / 2) it
-    have h2 := count_filter_split (succeeds cfg) (s.queue.take (s.queue.length / 2)) it
+    have h2 := count_filter_split (succeedsEm cfg) (s.queue.take (s.queue.length / 2)) it
     simp only [occ, List.count_append] at *
     omega
 
